@@ -44,11 +44,11 @@ Qed.
 Theorem C14_safe_means : forall (A : Type) (r : pres A),
   safe r <-> (forall p, r <> PPanic p) /\ r <> POutOfFuel.
 Proof.
-  intros A [a | k t | p |]; cbn [safe]; split; try tauto.
-  - intros _. split; [intros p H | intros H]; discriminate.
-  - intros _. split; [intros p H | intros H]; discriminate.
-  - intros [H _]. apply (H p). reflexivity.
-  - intros [_ H]. apply H. reflexivity.
+  intros A [a | k t | p |]; cbn [safe]; split; intro H;
+    try exact I; try contradiction;
+    try (split; [intros q E | intros E]; discriminate).
+  - destruct H as [H _]. exact (H p eq_refl).
+  - destruct H as [_ H]. exact (H eq_refl).
 Qed.
 
 Definition txt (s : string) : list Z := map Z.of_N (s2n s).
